@@ -188,6 +188,7 @@ func init() {
 		{"LK-GUARD-SERVER", "olareg.", "the server type and the rate-limit entry"},
 		{"LK-GUARD-CACHE", "cache.", "the bounded cache (entries map, per-entry time, timer, sort keys)"},
 		{"LK-GUARD-STORE", "store.", "the store, repository and upload types of both stores"},
+		{"LK-GUARD-UPLOAD", "@upload", "the upload-session types of both stores, including the buffers, writers and digesters they hold (accesses of those objects through their methods count as accesses of the session's state)"},
 	} {
 		v := v
 		register(&Rule{ID: v.id, Floor: 5,
@@ -483,8 +484,26 @@ func runLockGuard(c *core.Ctx, prefix string) {
 	reps := e.Lockset()
 	sort.Slice(reps, func(i, j int) bool { return reps[i].Field < reps[j].Field })
 	immut := 0
+	var uploadPrefixes []string
+	if prefix == "@upload" {
+		if r := requireRoles(c); r != nil {
+			for _, fam := range r.Families {
+				uploadPrefixes = append(uploadPrefixes, c.P.TypeName(fam.Upload)+".")
+			}
+		}
+	}
 	for _, fr := range reps {
-		if prefix != "" && !strings.HasPrefix(fr.Field, prefix) {
+		if prefix == "@upload" {
+			match := false
+			for _, up := range uploadPrefixes {
+				if strings.HasPrefix(fr.Field, up) {
+					match = true
+				}
+			}
+			if !match {
+				continue
+			}
+		} else if prefix != "" && !strings.HasPrefix(fr.Field, prefix) {
 			continue
 		}
 		if fr.PostWrites == 0 {
@@ -872,7 +891,11 @@ func runLockCopy(c *core.Ctx) {
 					msg = fmt.Sprintf("a returned index at %s is not the result of Index.Copy: handlers would share the store's slices and maps", c.P.Pos(ret.Pos()))
 					continue
 				}
-				if m, reached := mustHeldAt(e, call); !reached || m&(1<<uint(muClass)) == 0 {
+				muBits := uint64(1) << uint(muClass)
+				if rc, ok := e.ClassByName(c.P.TypeName(fam.Repo) + ".mu#r"); ok {
+					muBits |= 1 << uint(rc) // a copy is a read: the shared mode of a read-write mutex suffices
+				}
+				if m, reached := mustHeldAt(e, call); !reached || m&muBits == 0 {
 					ok = false
 					msg = fmt.Sprintf("the copy at %s is taken without the repository mutex", c.P.Pos(call.Pos()))
 				}
@@ -986,7 +1009,9 @@ func runLockFlag(c *core.Ctx) {
 	}
 }
 
-func exprStringType(t types.Type) string { return types.TypeString(t, func(p *types.Package) string { return p.Name() }) }
+func exprStringType(t types.Type) string {
+	return types.TypeString(t, func(p *types.Package) string { return p.Name() })
+}
 
 func init() {
 	register(&Rule{ID: "LK-REGISTRY", Floor: 2,
